@@ -2505,7 +2505,7 @@ fn main() {
         "operands: boundary classes {0,1,-1,2,2^(64k)±1,(p±1)/2,R,R²,R³,R⁻¹,all-ones,p-2^(64k),Montgomery-pattern} (all pairs for \
          binary operations; coefficient-wise / sparse / embedded for towers) + seeded random (uniform, limb patterns, near 0/p, \
          Montgomery patterns); byte strings around p for decoders; wide patterns for uniform reduction. Every library result is \
-         compared with the BigUint reference. A compared case is non-trivial by construction (library executed, outcome compared); \
+         compared with the BigUint reference through its canonical encoding, and element-valued results additionally through the          type's own `==` against the canonical element (labels `<op>~eq`). A compared case is non-trivial by construction (library executed, outcome compared); \
          distinct_nontrivial counts distinct (type, operation label, operand class of each argument, operand hash mod 256).",
     );
     rep.assume("reference model mzv::refs::field (self-tested at start against published parameter identities)");
